@@ -15,6 +15,7 @@ import (
 	"errors"
 	"fmt"
 	"sort"
+	"strings"
 	"testing"
 
 	zed "github.com/brimdata/super"
@@ -270,9 +271,10 @@ var (
 	commonPrims = []string{"int64", "string", "null", "type", "uint8", "float64", "bool", "ip"}
 	allPrims    = []string{"uint8", "uint16", "uint32", "uint64", "int8", "int16", "int32", "int64", "duration", "time",
 		"float16", "float32", "float64", "bool", "bytes", "string", "ip", "net", "type", "null"}
-	typeNames  = []string{"foo", "bar", "a.b", "日本"}
-	fieldNames = []string{"a", "b", "c", "", "foo", "with space", "é", "type"}
-	enumSyms   = []string{"A", "B", "foo", "bar baz", "é", ""}
+	// the last entries are long enough (>= 128 bytes) to need a two-byte length in a type value
+	typeNames  = []string{"foo", "bar", "a.b", "日本", "", strings.Repeat("T", 129)}
+	fieldNames = []string{"a", "b", "c", "", "foo", "with space", "é", "type", strings.Repeat("f", 130)}
+	enumSyms   = []string{"A", "B", "foo", "bar baz", "é", "", strings.Repeat("S", 128)}
 )
 
 type tyGen struct {
@@ -862,6 +864,18 @@ func (r *runner) sweepOnce(when string) *vt.Failure {
 			}
 			if f := r.checkTypeValue(mc, typ, when); f != nil {
 				return f
+			}
+		}
+	}
+	for mi, m := range r.mappers {
+		ids := make([]int, 0, len(r.entered[mi]))
+		for id := range r.entered[mi] {
+			ids = append(ids, id)
+		}
+		sort.Ints(ids)
+		for _, id := range ids {
+			if got := m.Lookup(id); got != r.entered[mi][id] {
+				return r.failf("C05/mapper/binding-lost", "%s: Mapper %d: Lookup(%d) = %v, want the type Enter returned for this id earlier", when, mi, id, got)
 			}
 		}
 	}
